@@ -45,9 +45,16 @@ Inductive fobs := FO (node : Z) (entries : list event)
   (groups : list (Z * Z * name * bool)) (gbyname : list (name * Z))
   (nss : list (Z * Z * name)) (nbyname : list (name * Z)).
 
+(* one long-poll client of HandleGetMetrics3: the version it asks from, the immediate answer (None = parked) and, for a
+   parked one, what broadcastJournal sent it after the next update (None = still parked); answers as (type,id,version) *)
+Inductive pollc := PC (from : Z) (imm del : option (list (Z * Z * Z))).
+
 Inductive case :=
 | CHist (compact : bool) (ops : list op) (finals : list fobs)
-| CConsts (cs : list Z).
+| CConsts (cs : list Z)
+(* an aggregator journal receives batch1, the clients call HandleGetMetrics3, it receives batch2 (applyUpdate ->
+   broadcastJournal), default limits *)
+| CPoll (compact : bool) (batch1 batch2 : list event) (max_items max_bytes : Z) (clients : list pollc).
 
 (* ---- hash table built from the edits ---- *)
 Definition htab := list (event * (Z * Z)).   (* event without version -> (hash, size) *)
@@ -192,8 +199,40 @@ Definition consts : list Z :=
    BuiltinGroupIDDefault; BuiltinGroupIDBuiltin; BuiltinGroupIDHost; BuiltinNamespaceIDDefault].
 
 (* the model is dual for the recorded findings: the code as it is (false) or repaired (true) *)
+Definition triple (e : event) : Z * Z * Z := (e_typ e, e_id e, e_ver e).
+Definition triple_eqb (a b : Z * Z * Z) : bool :=
+  let '(x1, y1, z1) := a in let '(x2, y2, z2) := b in (x1 =? x2) && (y1 =? y2) && (z1 =? z2).
+Definition resp_eqb (a b : option (list (Z * Z * Z))) : bool :=
+  match a, b with
+  | None, None => true
+  | Some x, Some y => list_eqb triple_eqb x y
+  | _, _ => false
+  end.
+Definition answer (j : journal) (from mi mb : Z) : option (list (Z * Z * Z)) :=
+  match journal_diff (fun e => Z.of_nat (length (e_name e)) + 60) j from mi mb with
+  | [] => None
+  | d => Some (map triple d)
+  end.
+Definition poll_ok (compact : bool) (b1 b2 : list event) (mi mb : Z) (cl : list pollc) : bool :=
+  let H := fun _ : event => 0 in
+  match apply_update H (empty_journal compact) b1 0 with
+  | None => false
+  | Some (j1, _) =>
+      match apply_update H j1 b2 0 with
+      | None => false
+      | Some (j2, _) =>
+          forallb (fun c => let 'PC from imm del := c in
+                     resp_eqb (answer j1 from mi mb) imm &&
+                     match answer j1 from mi mb with
+                     | Some _ => resp_eqb None del
+                     | None => resp_eqb (answer j2 from mi mb) del
+                     end) cl
+      end
+  end.
+
 Definition ok (c : case) : bool :=
   match c with
+  | CPoll compact b1 b2 mi mb cl => poll_ok compact b1 b2 mi mb cl
   | CHist compact ops finals =>
       (* nested ifs: vm_compute is call-by-value, [||] would evaluate all four variants *)
       if hist_ok false false compact ops finals then true
